@@ -23,6 +23,8 @@ type C11 struct {
 	atStop    map[string]map[string]string // footprint right after the stop
 	channel   map[string]string
 	prePhase  map[string]providertypes.ConsumerPhase
+	preFP     map[string]map[string]string // per-consumer footprints before the block
+	preVals   int
 	sentSeen  map[string]int
 	// TolerateOpenChannel is set by C19 when a fault was injected into the channel closing of a deletion
 	TolerateOpenChannel func(w *world.World) bool
@@ -53,6 +55,13 @@ func (m *C11) Before(w *world.World, a *world.Action) {
 	m.prePhase = map[string]providertypes.ConsumerPhase{}
 	for _, id := range w.ConsumerIDs() {
 		m.prePhase[id] = w.P.PApp.ProviderKeeper.GetConsumerPhase(w.P.Ctx(), id)
+	}
+	m.preFP, _ = world.Footprints(w.DumpStore(providertypes.StoreKey))
+	m.preVals = 0
+	for _, o := range w.ObserveVals() {
+		if o.Exists {
+			m.preVals++
+		}
 	}
 }
 
@@ -112,6 +121,11 @@ func (m *C11) After(w *world.World, a *world.Action, r *world.StepResult) *Viola
 			}
 			m.stopKinds[kind] = true
 			w.Label("stop:" + kind)
+			// the stop itself keeps the client binding, the channel binding, the evidence floor and the assigned
+			// keys (unless a validator's own message of this block changed its key or a validator was removed)
+			if v := m.stopKeeps(w, id, fp, r); v != nil {
+				return v
+			}
 			rt, err := k.GetConsumerRemovalTime(ctx, id)
 			if err != nil || !rt.Equal(T.Add(ub)) {
 				return violf(P, "removal-time", "consumer %s stopped at %s: removal time %s (err %v), want stop + unbonding period %s", id, T.Format(time.RFC3339), rt, err, T.Add(ub).Format(time.RFC3339))
@@ -220,3 +234,47 @@ func (m *C11) After(w *world.World, a *world.Action, r *world.StepResult) *Viola
 
 func (m *C11) NonTrivial(*world.World) bool { return m.deletedRich }
 func (m *C11) Checks() int                  { return m.n }
+
+// keptAtStop are the records a stop must not touch (client id, channel id, evidence minimum height, assigned keys).
+var keptAtStop = map[byte]bool{7: true, 5: true, 29: true, 22: true}
+
+func (m *C11) stopKeeps(w *world.World, id string, fp map[string]string, r *world.StepResult) *Violation {
+	if m.prePhase[id] != world.PhLaunched || w.P.PApp.ProviderKeeper.GetConsumerPhase(w.P.Ctx(), id) != world.PhStopped {
+		return nil
+	}
+	keyTouched := false
+	for _, tx := range r.Txs {
+		if tx.Action == nil {
+			continue
+		}
+		acts := []world.Action{*tx.Action}
+		if tx.Action.Kind == world.KMulti {
+			acts = tx.Action.Sub
+		}
+		for _, a := range acts {
+			if (a.Kind == world.KAssignKey || a.Kind == world.KOptIn) && a.Consumer == id {
+				keyTouched = true
+			}
+		}
+	}
+	vals := 0
+	for _, o := range w.ObserveVals() {
+		if o.Exists {
+			vals++
+		}
+	}
+	for key, v := range m.preFP[id] {
+		p, ok := prefixOfKey(key)
+		if !ok || !keptAtStop[p] {
+			continue
+		}
+		if p == 22 && (keyTouched || vals < m.preVals) {
+			continue
+		}
+		if cur, present := fp[key]; !present || cur != v {
+			return violf("C11", "stop-dropped-state", "consumer %s was stopped in block %d and its record under prefix %d vanished or changed in that same block", id, r.Block.Height, p)
+		}
+		w.Label("stop-kept-state")
+	}
+	return nil
+}
